@@ -46,6 +46,7 @@ int fk_nconnects(void);
 int fk_fd_of_attempt(int idx);		/* descriptor handed out for the idx-th socket() call, -1 if it failed */
 int fk_recv_calls(int fd), fk_send_calls(int fd);
 int fk_send_broken(int fd);		/* a send error has been injected on this stream */
+int fk_send_errors(int fd);		/* sends that were answered with an error */
 int fk_conn_established(int fd);
 int fk_polled(const struct pollfd * fds, int n, int fd, short ev);
 extern int fk_accept_hard_errors;
